@@ -3510,7 +3510,9 @@ class TensorDict(TensorDictBase):
                 def keyfunc(x):
                     return x[0]
 
-                return list(zip(*sorted(self._tensordict.items(), key=keyfunc)))[1]
+                return tuple(
+                    val for _, val in sorted(self._tensordict.items(), key=keyfunc)
+                )
         else:
             return TensorDictBase.values(
                 self,
